@@ -342,6 +342,9 @@ Qed.
 Lemma method_param_null_refuted_l : exists sub A,
   method_param_accepts sub (Some (DGen "T")) [("T", A)] VNull = true /\ of_type sub VNull A = false.
 Proof. exists (fun _ _ => false), CInt. split; reflexivity. Qed.
-Lemma ctor_promoted_refuted_l : exists sub A v,
-  ctor_promoted_accepts (Some (DGen "T")) [("T", A)] v = true /\ of_type sub v A = false.
-Proof. exists (fun _ _ => false), CInt, (VStr "s"). split; reflexivity. Qed.
+Lemma ctor_promoted_exact_l sub n A v : v <> VNull ->
+  ctor_promoted_accepts sub (Some (DGen n)) [(n, A)] v = of_type sub v A.
+Proof. exact (method_param_exact_l sub n A v). Qed.
+Lemma ctor_promoted_null_refuted_l : exists sub A,
+  ctor_promoted_accepts sub (Some (DGen "T")) [("T", A)] VNull = true /\ of_type sub VNull A = false.
+Proof. exact method_param_null_refuted_l. Qed.
